@@ -6,6 +6,7 @@ CONSTANTS
   VarcharLens <- MC_VarcharLens
   BaseTable = "t1"
   Aliases <- MC_Aliases
+  BigInts <- MC_BigInts
   ColPool <- MC_ColPool_Q
   CondPool <- MC_CondPool_Q
   Dbs <- MC_Dbs
